@@ -1,12 +1,17 @@
 import GN.Driver.C10
+import GN.Driver.C19
+import GN.Driver.C20
 
 /-! Line-protocol driver: one verdict line per case line read from stdin. -/
 
 open GN
 
 def dispatch (line : String) : String :=
+  if line.startsWith "#" then "COMMENT" else
   match (line.trimAscii.toString.splitOn " ").filter (· != "") with
   | "C10" :: rest => GN.Driver.C10.handle rest
+  | "C19" :: rest => GN.Driver.C19.handle rest
+  | "C20" :: rest => GN.Driver.C20.handle rest
   | [] => "EMPTY"
   | _ => "BADLINE unknown-tag"
 
